@@ -14,6 +14,7 @@ from __future__ import annotations
 
 import itertools
 import json
+import math
 import os
 
 from mc.core import boot, listing, sandbox
@@ -69,6 +70,11 @@ def all_cases(tier):
     for rk in ("class", "attribute"):
         for pl in PLACEMENTS:
             yield (("OK", rk), pl, PATTERNS["quick"][0])
+
+    # XP: two (module, stubs) pairs in one package, an alias of the second module pointing into the first: EVERY order in which the directory can
+    # list the files (the two files of a pair need not be adjacent) must give the same merged result, and the alias must reach the merged member
+    for nstub in XP_NSTUBS:
+        yield (("XP", nstub), "in-package", PATTERNS["quick"][0])
 
     # WS: "loses nothing", differentially: a package whose __init__ re-exports through wildcards and assembled __all__ lists is loaded
     # without stubs and with a stub for its __init__ (two placements): every runtime member must still be there, with the same kind/target
@@ -162,6 +168,54 @@ def _ov_sources(n, mask, level):
             if mask >> i & 1:
                 rt.append(f"    def {nm}(self, a):\n        return a")
     return "\n".join(rt) + "\n", "\n".join(st) + "\n"
+
+
+XP_NSTUBS = {"none": None, "def": "def X(a: int) -> int: ...\n", "import": "from pkg.m import X\n", "other": "def other() -> int: ...\n"}
+
+
+def _run_xp(griffe, acc, case):
+    (_tag, nstub), pl, _pat = case
+    files = {"pkg/__init__.py": "", "pkg/m.py": "def X(a):\n    \'\'\'runtime doc\'\'\'\n", "pkg/m.pyi": "def X(a: int) -> int: ...\n", "pkg/n.py": "from pkg.m import X\n"}
+    if XP_NSTUBS[nstub] is not None:
+        files["pkg/n.pyi"] = XP_NSTUBS[nstub]
+    cd = {"case": [["XP", nstub], pl, list(_pat)], "files": files}
+    names = sorted(k.split("/")[1] for k in files)
+    seen = {}
+    with sandbox.scratch_dir("c19x") as d:
+        sandbox.write_tree(d, files)
+        for perm in itertools.permutations(names):
+            def order(_d, ns, _what, perm=perm):
+                return sorted(ns, key=lambda x: perm.index(x) if x in perm else -1)
+            try:
+                with listing.Listing(order):
+                    loader = griffe.GriffeLoader(search_paths=[d], allow_inspection=False)
+                    pkg = loader.load("pkg")
+                loader.resolve_aliases(implicit=True, external=False)
+                mx = pkg["m"].members.get("X")
+                nx = pkg["n"].members.get("X")
+                reach = None
+                if nx is not None and nx.is_alias:
+                    try:
+                        reach = "the member pkg.m.X" if nx.final_target is mx else f"another object ({nx.final_target.path}, from {getattr(nx.final_target.filepath, 'name', None)})"
+                    except Exception as e:  # noqa: BLE001
+                        reach = type(e).__name__
+                obs = {"m.X": None if mx is None else (mx.kind.value, None if mx.returns is None else str(mx.returns), mx.docstring.value if mx.docstring else None,
+                                                      [None if p.annotation is None else str(p.annotation) for p in mx.parameters]),
+                       "n.X": None if nx is None else ("alias" if nx.is_alias else nx.kind.value), "n.X reaches": reach, "n": sorted(pkg["n"].members)}
+            except Exception as e:  # noqa: BLE001
+                acc.violation(f"raise/{type(e).__name__}/cross-pair", f"load raised {e!r} with the files listed as {perm}", cd, {"order": perm}, size=1)
+                return
+            seen.setdefault(json.dumps(obs, sort_keys=True), perm)
+            if obs["m.X"] != ("function", "int", "runtime doc", ["int"]):
+                acc.violation("merge/cross-pair/m.X", f"pkg.m.X after the merge is {obs['m.X']} with the files listed as {perm}", cd, {"order": perm}, size=1)
+            if obs["n.X"] == "alias" and reach != "the member pkg.m.X":
+                acc.violation("merge/cross-pair/alias-reaches-dead-object", f"pkg.n.X (from pkg.m import X) resolves to {reach} with the files listed as {perm}", cd, {"order": perm}, size=1)
+    if len(seen) > 1:
+        a, b2 = list(seen.items())[:2]
+        acc.violation("order/cross-pair", f"the merged result depends on the listing order: {a[1]} gives {a[0]}, {b2[1]} gives {b2[0]}", cd, None, size=1)
+    acc.case({"case": cd["case"]}, outcome="cross-pair", nontrivial=True)
+    acc.observe(sorted(seen))
+    acc.traces += math.factorial(len(names))
 
 
 def _run_ok(griffe, acc, case):
@@ -433,6 +487,8 @@ def run_case(griffe, acc, case):
         return _run_ws(griffe, acc, case)
     if sv[0] == "OK":
         return _run_ok(griffe, acc, case)
+    if sv[0] == "XP":
+        return _run_xp(griffe, acc, case)
     files, top, modpath, opts = layout(case)
     results = {}
     cd = {"case": [list(sv), pl, list(pat)], "files": files}
